@@ -109,6 +109,7 @@ Definition fd_step (s : fdst) (e : ev) : option fdst :=
       end
   | EIn ("accepted", [AInt fd]) => Some (fresh fd)
   | EIn ("enroll", AInt fd :: _) => Some (fresh fd)
+  | EIn ("dial", AInt fd :: _) => Some (fresh fd)
   | _ => Some s
   end.
 
